@@ -196,31 +196,33 @@ class Checkers(object):
             return False, 'RxTxHeartbeat::new has unexpected callers'
         if self.callers('io_loop::heartbeat_timers::HeartbeatTimers::start') != {'io_loop::Inner::start_heartbeats'}:
             return False, 'HeartbeatTimers::start has unexpected callers'
-        # intervals handed to Heartbeat::start: `interval` and `K * interval` with K >= 1
-        root = self.hir('io_loop::heartbeat_timers::RxTxHeartbeat::new')
-        param = self.ctx.fn('io_loop::heartbeat_timers::RxTxHeartbeat::new')['params'][1]['id']
+        # intervals handed to Heartbeat::start: `interval` and `K * interval` with K >= 1 (read off the evaluated constructor term)
         k = int(self.ctx.const('io_loop::heartbeat_timers::MAX_MISSED_SERVER_HEARTBEATS')['bits'])
-        for call in self.calls(root, 'Heartbeat::start'):
-            a = H.peel(call['args'][1])
-            if H.local_id(a) == param:
+        ev = self.ctx.evaluator(0)
+        ev.run_fn('io_loop::heartbeat_timers::RxTxHeartbeat::new', [('var', 'timer', -1), ('var', 'interval', -2)])
+        starts = [e for e in ev.events if e.kind == 'call' and e.callee == 'heartbeats::Heartbeat::start']
+        if len(starts) != 2:
+            return False, 'RxTxHeartbeat::new: expected two Heartbeat::start calls'
+        for e in starts:
+            a = S.show(e.args[1])
+            if a not in ('interval', '(io_loop::heartbeat_timers::MAX_MISSED_SERVER_HEARTBEATS * interval)', '(interval * io_loop::heartbeat_timers::MAX_MISSED_SERVER_HEARTBEATS)') or k < 1:
+                return False, 'Heartbeat::start interval argument is neither `interval` nor `K * interval`: ' + a
+        # start_heartbeats: start() only on the paths where interval is not 0, with from_secs of that same value
+        import paths as P
+        rows = P.table(self.ctx, 'io_loop::Inner::start_heartbeats', ['self', 'interval'])
+        START = 'io_loop::heartbeat_timers::HeartbeatTimers::start(self.heartbeats, std::time::Duration::from_secs(interval))'
+        n = 0
+        for x in rows:
+            st = [e for e in x.effects if e.startswith('io_loop::heartbeat_timers::HeartbeatTimers::start(')]
+            if not st:
                 continue
-            if a.get('k') == 'Binary' and a['op'] == '*' and H.local_id(a['r']) == param and H.peel(a['l']).get('k') == 'Def' and k >= 1:
-                continue
-            return False, 'Heartbeat::start interval argument is neither `interval` nor `K * interval`: ' + H.term(a)
-        # start_heartbeats: guarded by interval > 0, converts that same value with from_secs
-        root = self.hir('io_loop::Inner::start_heartbeats')
-        p = self.ctx.fn('io_loop::Inner::start_heartbeats')['params'][1]['id']
-        calls = self.if_guards(root, lambda n: n.get('k') == 'MethodCall' and n['name'] == 'start')
-        if len(calls) != 1:
-            return False, 'start_heartbeats: expected one start() call'
-        guards, n = calls[0]
-        g_ok = any(ifn['cond'].get('k') == 'Binary' and ifn['cond']['op'] == '>' and H.local_id(ifn['cond']['l']) == p
-                   and H.term(ifn['cond']['r']) == '0' and pol is True for kind, ifn, pol in guards)
-        if not g_ok:
-            return False, 'start() is not on the true edge of `interval > 0`'
-        arg = H.peel(n['args'][0])
-        if not (arg.get('k') == 'Call' and (H.callee_path(arg) or '').endswith('Duration::from_secs') and H.local_id(arg['args'][0]) == p):
-            return False, 'start() argument is not Duration::from_secs(interval)'
+            n += 1
+            if st != [START]:
+                return False, 'start() argument is not Duration::from_secs(interval): %s' % st
+            if not (('(0 < interval)', True) in x.conds or ('(0 == interval)', False) in x.conds):
+                return False, 'start() is not on the true edge of `interval > 0`: %s' % x.cond_strs()
+        if n != 1:
+            return False, 'start_heartbeats: expected start() on exactly one path'
         return True, 'only caller chain start_heartbeats(interval > 0) -> from_secs(interval) -> {interval, %d*interval}' % k
 
     def chk_heartbeat_timers_started_once(self):
@@ -469,9 +471,8 @@ class Checkers(object):
         ctx = self.ctx
         done = match_bool_table(ctx, 'io_loop::IoLoop::is_handshake_done')
         false_states = sorted(k for k, v in done.items() if v == 'false')
-        root = self.hir('io_loop::IoLoop::run_amqp_handshake')
-        arms = unreachable_arm_variants(root)
-        if len(arms) != 1:
+        arms = unreachable_arm_variants(ctx, 'io_loop::IoLoop::run_amqp_handshake', ['self', 'stream', 'options', 'have_written_to_socket'])
+        if arms is None or len(arms) != 1:
             return False, 'expected one unreachable arm'
         if sorted(arms[0]) != false_states:
             return False, 'unreachable arm covers %s but is_handshake_done is false for %s' % (sorted(arms[0]), false_states)
@@ -484,9 +485,8 @@ class Checkers(object):
         ctx = self.ctx
         done = match_bool_table(ctx, 'io_loop::IoLoop::is_connection_done')
         false_states = sorted(k for k, v in done.items() if v == 'false')
-        root = self.hir('io_loop::IoLoop::run_connection')
-        arms = unreachable_arm_variants(root)
-        if len(arms) != 1 or sorted(arms[0]) != false_states:
+        arms = unreachable_arm_variants(ctx, 'io_loop::IoLoop::run_connection', ['self', 'stream', 'ch0_slot', 'pending_frames'])
+        if arms is None or len(arms) != 1 or sorted(arms[0]) != false_states:
             return False, 'unreachable arm %s vs is_connection_done false for %s' % (arms, false_states)
         ok, why = self.run('io_loop_returns_ok_only_when_done')
         if not ok:
@@ -503,7 +503,7 @@ class Checkers(object):
         for r in rets:
             ok = False
             for g in r.guards:
-                if g[2] == 'if' and g[1] == 'then' and g[3].startswith('value:is_done('):
+                if any(x.startswith('if(value:is_done(') for x in S.guard_strs(g)):
                     ok = True
             if not ok:
                 return False, 'run_io_loop returns Ok without consulting is_done'
@@ -637,32 +637,57 @@ def variant_of(pat_term):
     return m.group(1).split('::')[-1] if m else pat_term
 
 
-def match_bool_table(ctx, fnpath):
-    """fn(&self, state) -> bool written as `match state {pats => bool-ish}`: variant -> 'true'/'false'/term."""
-    fn = ctx.fn(fnpath)
-    ms = [n for n in H.walk(fn['hir']) if n.get('k') == 'Match' and n.get('src') == 'Normal']
-    if not ms:
-        raise Unrecognised(fnpath + ': no match')
-    out = {}
-    for a in ms[0]['arms']:
-        body = H.peel(a['body'])
-        if body.get('k') == 'Block':
-            v = H.term(body['expr']) if body.get('expr') else '()'
-        else:
-            v = H.term(body)
-        for alt in H.pat_alternatives(a['pat']):
-            out[variant_of(H.pat_term(alt))] = v
+def variants_in_pred(pred):
+    """Variant names of a canonical whole-variant predicate `E::A(_) | E::B`."""
+    out = []
+    for part in pred.split(' | '):
+        m = re.match(r'^(?:[\w:<>, ]+::)?(\w+)(?:\(.*\)|\{.*\})?$', part.strip())
+        if not m:
+            return None
+        out.append(m.group(1))
     return out
 
 
-def unreachable_arm_variants(root):
+def match_bool_table(ctx, fnpath):
+    """fn(&self, state) -> bool deciding on the state's variant (match / matches! / if-let, read as a path table):
+    variant -> 'true' / 'false' / term."""
+    import paths as P
+    fn = ctx.fn(fnpath)
+    names = ['self', 'state'][:len(fn.get('params', []))]
+    rows = P.table(ctx, fnpath, names)
+    out = {}
+    for x in rows:
+        cs = [c for c in x.conds if c[0] == 'state' and isinstance(c[1], str)]
+        if len(cs) != 1:
+            raise Unrecognised('%s: a path that does not decide on the variant of `state`: %s' % (fnpath, x.cond_strs()))
+        vs = variants_in_pred(cs[0][1])
+        if vs is None:
+            raise Unrecognised('%s: pattern %s is not a set of whole variants' % (fnpath, cs[0][1]))
+        rest = [c for c in x.conds if c is not cs[0]]
+        v = x.value_str()
+        if rest:
+            raise Unrecognised('%s: extra conditions %s' % (fnpath, rest))
+        for nm in vs:
+            if nm in out and out[nm] != v:
+                raise Unrecognised('%s: variant %s decided twice' % (fnpath, nm))
+            out[nm] = v
+    return out
+
+
+def unreachable_arm_variants(ctx, fnpath, params, subject='$m0'):
+    """Variants of the final state for which the function runs into unreachable!() (paths read through helpers)."""
+    import paths as P
+    rows = P.table(ctx, fnpath, params)
     out = []
-    for n in H.walk(root):
-        if n.get('k') == 'Match' and n.get('src') == 'Normal':
-            for a in n['arms']:
-                b = H.peel(a['body'])
-                if b.get('k') == 'MacroCall' and b['name'] == 'unreachable':
-                    out.append([variant_of(H.pat_term(x)) for x in H.pat_alternatives(a['pat'])])
+    for x in rows:
+        if x.done == 'panic' and 'unreachable!()' in x.effects:
+            cs = [c for c in x.conds if c[0] == subject and isinstance(c[1], str)]
+            if not cs:
+                return None
+            vs = variants_in_pred(cs[-1][1])
+            if vs is None:
+                return None
+            out.append(vs)
     return out
 
 
@@ -729,29 +754,29 @@ def token_domain(ctx):
         if m:
             continue
         return False, 'registration with token %s in %s' % (tok, p)
-    fn = ctx.fn('io_loop::IoLoop::handle_steady_event')
-    ms = [n for n in H.walk(fn['hir']) if n.get('k') == 'Match' and n.get('src') == 'Normal' and H.term(n['scrut']).endswith('Event::token(event)')]
-    if len(ms) != 1:
-        return False, 'token match not found'
-    pats = [(H.pat_term(a['pat']), H.term(a['guard']) if a.get('guard') else None) for a in ms[0]['arms']]
-    names = [p for p, g in pats]
+    import paths as P
+    rows = P.table(ctx, 'io_loop::IoLoop::handle_steady_event', ['self', 'stream', 'state', 'event'])
+    TOK = 'mio::event::Event::token(event)'
+    heads = [x.conds[0][1] for x in rows if x.conds and x.conds[0][0] == TOK]
+    if len(heads) != len(rows):
+        return False, 'a path of handle_steady_event does not start by deciding on event.token()'
     need = ['io_loop::STREAM', 'io_loop::HEARTBEAT', 'io_loop::SET_BLOCKED_TX', 'io_loop::ALLOC_CHANNEL', 'mio::Token(0)']
     for n in need:
-        if n not in names:
+        if n not in heads:
             return False, 'no arm for %s' % n
-    gen_ok = False
-    for a in ms[0]['arms']:
-        if re.match(r'^mio::Token\(\w+\)$', H.pat_term(a['pat'])) and H.pat_term(a['pat']) != 'mio::Token(0)' and a.get('guard'):
-            g = H.peel(a['guard'])
-            b = H.pat_bindings(a['pat'])
-            if g.get('k') == 'Binary' and g['op'] == '<=' and b and H.local_id(g['l']) == b[0]['id']:
-                rr = H.peel(g['r'])
-                if rr.get('k') == 'Cast' and H.peel(rr['e']).get('ty') == 'u16' and 'max' in H.term(rr['e']).lower():
-                    gen_ok = True
-    if not gen_ok:
+    gen = [x for x in rows if x.conds[0] == (TOK, 'mio::Token(_)')]
+    live = [x for x in gen if x.done != 'panic']
+    dead = [x for x in rows if x.done == 'panic']
+    if len(live) != 1 or len(live[0].conds) != 2 or live[0].conds[1][1] is not False:
         return False, 'no `Token(n) if n <= u16::MAX` arm'
-    if names[-1] != '_':
-        return False, 'last arm is not the wildcard'
+    m = re.match(r'^\((.+) < %s\.Token\.0\)$' % re.escape(TOK), live[0].conds[1][0])
+    if not m or not token_bound_is_u16_max(ctx, m.group(1)):
+        return False, 'no `Token(n) if n <= u16::MAX` arm (guard: %s)' % live[0].cond_strs()[1]
+    # what is left for the catch-all is exactly: a generic token above the channel range
+    for x in dead:
+        if not (x.conds[0][1] in ('mio::Token(_)',) or x.conds[0][1].startswith('not ')):
+            return False, 'unreachable!() on a path for %s' % x.conds[0][1]
+    regs = registrations(ctx)
     ok, why, _ = token_values(ctx)
     if not ok:
         return False, why
@@ -776,6 +801,13 @@ def token_values(ctx):
     if len(set(vals.values())) != len(vals):
         return False, 'two event sources share a token: %s' % vals, vals
     return True, 'special tokens %s all > u16::MAX and pairwise distinct' % vals, vals
+
+
+def token_bound_is_u16_max(ctx, s):
+    if s in ('(u16::MAX as usize)', '65535', '(65535 as usize)'):
+        return True
+    c = ctx.consts.get(s)
+    return c is not None and c.get('bits') is not None and int(c['bits']) == 0xFFFF
 
 
 def registrations(ctx):
